@@ -456,10 +456,10 @@ class _NewWallet:
         yield "ensures.exactly_one_draw", len(draws) == 1
         if len(draws) != 1:
             return
-        source, cls, lo, hi, r = draws[0]
+        source, cls, lo, hi, r, api = draws[0]
         yield "ensures.source_is_SystemRandom", source == "os.urandom" and cls == "SystemRandom"
         yield "ensures.full_range_0_to_2_ENT", lo == 0 and hi == 2 ** bits
-        m, idxs = CB39.spec_sentence(Rope([(r, bits // 8, False)]))
+        m, idxs = CB39.spec_sentence(CB39.entropy_of_draw(r, bits // 8, api))
         seed = spec_seed(m, I.p)
         yield "raises.iff_invalid_master", iff(out.raised, seed_invalid(seed))
         if out.returned:
